@@ -412,6 +412,64 @@ def explore(acc, cfg, depth, shard_i, nshards):
         w.restore_clock()
 
 
+def check_two_cookies(acc):
+    """Two SignedCookieMiddleware instances (own names) behind the other bundled response-rewriting middlewares, a
+    client that accepts gzip, bodies that compress: every history of <= 3 steps over {write first, write second,
+    write both, read}; what each cookie presents is what was stored in it."""
+    import itertools
+    from clastic import Application
+    from clastic.middleware import GzipMiddleware, HTTPCacheMiddleware
+    from clastic.middleware.cookie import SignedCookieMiddleware
+    from clastic.middleware.stats import StatsMiddleware
+    from werkzeug.wrappers import Response
+
+    def ep(sess, prefs, request):
+        before = {'sess': dict(sess), 'prefs': dict(prefs)}
+        op = request.args.get('op')
+        if op in ('first', 'both'):
+            sess['u'] = request.args['v']
+        if op in ('second', 'both'):
+            prefs['p'] = request.args['v']
+        return Response(json.dumps(before, sort_keys=True) + ' ' * 3000, status=201)
+    for expiry in (EXPIRY, 0):
+        for front in ([GzipMiddleware()], [HTTPCacheMiddleware(), GzipMiddleware()], [StatsMiddleware()], []):
+            for ae in ('gzip', None):
+                for hist in itertools.product(('first', 'second', 'both', 'read'), repeat=3):
+                    app = Application([('/', ep)], middlewares=front + [
+                        SignedCookieMiddleware(secret_key=KEY, arg_name='sess', cookie_name='sid', expiry=expiry),
+                        SignedCookieMiddleware(secret_key=b'second-key', arg_name='prefs', cookie_name='prf', expiry=expiry)])
+                    jar, model = {}, {'sess': {}, 'prefs': {}}
+                    for j, op in enumerate(hist + ('read',)):
+                        hdrs = {'Cookie': '; '.join('%s=%s' % kv for kv in sorted(jar.items()))} if jar else {}
+                        if ae:
+                            hdrs['Accept-Encoding'] = ae
+                        res = wsgi.call(app, '/', 'GET', query='op=%s&v=v%d' % (op, j), headers=hdrs)
+                        acc.transitions += 1
+                        acc.validated += 1
+                        case = {'two_cookies': True, 'expiry': expiry, 'front': [type(m).__name__ for m in front], 'ae': ae,
+                                'history': list(hist[:j + 1])}
+                        if res.raised is not None or res.code != 201:
+                            acc.violation('C16:two-cookies:status', 'answered %s %r; %r' % (res.status, res.raised, case), case)
+                            break
+                        body = res.body
+                        if (res.header('Content-Encoding') or '').lower() == 'gzip':
+                            import gzip as _gz
+                            body = _gz.decompress(body)
+                        seen = json.loads(body.decode('utf-8'))
+                        if seen != model:
+                            acc.violation('C16:two-cookies:presented', 'the endpoint was presented %r, stored so far: %r; %r'
+                                          % (seen, model, case), case)
+                            break
+                        if op in ('first', 'both'):
+                            model['sess'] = dict(model['sess'], u='v%d' % j)
+                        if op in ('second', 'both'):
+                            model['prefs'] = dict(model['prefs'], p='v%d' % j)
+                        for sc in res.header_all('Set-Cookie'):
+                            name, _, rest = sc.partition('=')
+                            jar[name] = rest.split(';', 1)[0]
+    acc.outcome('two-cookies')
+
+
 def configs():
     return [(e, c, x) for e in ('session', 'never', 'numeric') for c in (False, True) for x in (True, False)] + \
            [('numeric-deprecated', False, True), ('session', False, 'unicode'), ('numeric', False, 'unicode')]
@@ -430,6 +488,8 @@ def shard(tier, i, n, seed):
         explore(acc, cfg, depth, i, n)
         if acc.extra.get('cap_hit'):
             break
+    if i == 4 % n:
+        check_two_cookies(acc)
     return acc
 
 
@@ -454,6 +514,10 @@ def replay(case):
 
 def _replay(case):
     common.setup_repo()
+    if case.get('two_cookies'):
+        acc = common.Acc()
+        check_two_cookies(acc)
+        return (False, acc.violations[0]['desc']) if acc.violations else (True, 'ok')
     cfg = tuple(case['cfg'])
     w = World(*cfg)
     w.install_clock()
